@@ -138,7 +138,10 @@ def run_one(prop, tier, seed):
     if not recording and os.path.exists(rec_path):
         recorded = set(l.strip() for l in open(rec_path) if l.strip())
     to_record = set()
-    digest = lambda x: hashlib.sha1(repr((x.get("harness"), x.get("mode"), x.get("kind"), x.get("choices"))).encode()).hexdigest()[:10]
+    # identity of a leaf = what was called (expression, operand kinds and shapes, argnum, features), not the position in the choice tree: inserting a new
+    # configuration into an alphabet must not invalidate the recorded sets
+    digest = lambda x: hashlib.sha1(repr((x.get("harness"), x.get("mode"), x.get("kind"), json.dumps(x.get("config") if x.get("config") is not None else x.get("choices"), sort_keys=True, default=str),
+                                          json.dumps(x.get("features"), sort_keys=True, default=str))).encode()).hexdigest()[:10]
     for sig, vs in groups.items():
         v = vs[0]
         k = next((k for k in known if k.matches(v)), None)
